@@ -152,7 +152,7 @@ func buildList(specs []cueSpec) *builtList {
 				it.Lines[0].VoiceName = fmt.Sprintf("voice%d", i%2)
 			}
 		}
-		if i%4 != 3 && len(it.Lines) > 0 {
+		if i%4 != 3 && len(it.Lines) > 0 && len(it.Lines[len(it.Lines)-1].Items) > 0 {
 			// an inline timestamp (WebVTT) on the last run of the last line: content like any other
 			ll := &it.Lines[len(it.Lines)-1]
 			ll.Items[len(ll.Items)-1].StartAt = time.Duration(c.E) - time.Duration(i%2)*time.Millisecond
@@ -185,6 +185,10 @@ func textLines(t string) []astisub.Line {
 	var ls []astisub.Line
 	for _, l := range strings.Split(t, "|") {
 		ln := astisub.Line{}
+		if l == "^" {
+			ls = append(ls, ln)
+			continue
+		}
 		// "x+y": one line made of two runs (same text as "xy", different structure)
 		for _, r := range strings.Split(l, "+") {
 			ln.Items = append(ln.Items, astisub.LineItem{Text: r})
@@ -199,7 +203,7 @@ func textKey(t string) string {
 	if t == "~" {
 		return ""
 	}
-	return strings.ReplaceAll(t, "+", "")
+	return strings.ReplaceAll(strings.ReplaceAll(t, "+", ""), "^", "")
 }
 
 // timeline is a cheap fingerprint of a list: which cue objects, in which order, with which boundaries and text.
@@ -283,7 +287,7 @@ func fmtItems(its []*astisub.Item) string {
 var opTexts = []string{"a", "b", "c"}
 
 // opTextsWide adds a cue without any line ("~") and a cue with one empty line ("")
-var opTextsWide = []string{"a", "b", "c", "a", "b", "~", ""}
+var opTextsWide = []string{"a", "b", "c", "a", "b", "~", "", "a|^|b", "^"} // "^": a line without any run (a blank row, a voice-only line)
 
 const (
 	nsMs   = int64(time.Millisecond)
